@@ -15,11 +15,11 @@ pub fn parts(id: &str, thorough: bool) -> Vec<Part> {
         "C14" => e2("C14seq", 40_000, 1_500_000, "programs (1-60 ops) over new/from/with_strategy/from_pointee/empty, load, load_full, Guard::into_inner/from_inner, guard drop in any order, store, swap, compare_and_swap in every form, rcu, into_inner, drop on 1-3 containers with a pool of 5 values + fresh values + None, both flavours; each program is run under DefaultStrategy, HybridStrategy<NoFastSlots> and RwLock<()> and compared after every step with a plain-variable model: identities, strong counts in [owners, owners + live guards], destroyed exactly once when unowned. Non-trivial: a guard was held across a write to its container, or rcu/CAS/None/>=2 containers were used."),
         "C15" => {
             e2("C15kinds", 60_000, 2_000_000, "kind in {Arc, Rc, Option of either, sync::Weak, rc::Weak, Option of Weak, dangling Weak, Weak with dropped target, None} x pointee in {ZST, u8, u64, [u8;24], String, align(64)} x extra strong 0-3 x extra weak 0-3 x 1-11 trait calls / container round trips; shadow model of (strong, weak) and identity. Non-trivial: an empty value, a dropped target or outstanding weak references were involved.");
-            e2("C15mix", 40_000, 1_500_000, "programs (1-39 ops) over a pool of 3 allocations + fresh ones and 1-4 containers of mixed pointer kinds (ArcSwapAny<Strong>, ArcSwapAny<Option<Strong>>, ArcSwapAny<Weak>; Strong/Weak = Arc/sync::Weak or Rc/rc::Weak; default or fallback-only strategy) in which the same allocation sits in containers of both classes while guards of both classes are alive: load, load_full, store, swap, compare_and_swap, up to 11 guards at once, guard/handle/pool-handle release in any order, deref/upgrade of guards; against a plain-variable model with exact strong and weak counts (a guard owns a count or borrows through a slot - read off the slots), occupied slots == borrowing guards after every step, destruction exactly once and exactly when the last strong owner/guard goes, Weak upgrades iff alive. Non-trivial: an allocation was in containers of both classes, a guard was alive across a write that removed its allocation from a container, or a Weak guard outlived its target.");
+            e2("C15mix", 40_000, 1_500_000, "programs (1-39 ops) over a pool of 3 allocations + fresh ones and 1-4 containers of mixed pointer kinds (ArcSwapAny<Strong>, <Option<Strong>>, <Weak>, <Option<Weak>>; Strong/Weak = Arc/sync::Weak or Rc/rc::Weak; default or fallback-only strategy) in which the same allocation sits in containers of both classes while guards of both classes are alive: load, load_full, store, swap, rcu, compare_and_swap, storing back a handle obtained earlier (a Weak whose target is gone included), up to 11 guards at once, guard/handle/pool-handle release in any order, deref/upgrade of guards, at the end containers dropped or consumed before or after the guards; against a plain-variable model with exact strong and weak counts (whether a guard owns a count or borrows through a slot, and when that changes, is read off the slots as decoded by the crate's hook), occupied slots == borrowing guards after every step, destruction exactly once and exactly when the last strong owner/guard goes, Weak upgrades iff alive, every allocation freed at the end (counting allocator). Non-trivial: an allocation was in containers of both classes, a guard was alive across a write that removed its allocation from a container, or a Weak guard outlived its target.");
         }
-        "C01" => e2("C01mix", 30_000, 1_000_000, "programs (1-39 ops) over a pool of 3 allocations + fresh ones and 1-4 containers of mixed pointer kinds (ArcSwapAny<Strong>, ArcSwapAny<Option<Strong>>, ArcSwapAny<Weak>; Strong/Weak = Arc/sync::Weak or Rc/rc::Weak; default or fallback-only strategy) in which the same allocation sits in containers of both classes while guards of both classes are alive: load, load_full, store, swap, compare_and_swap, up to 11 guards at once, guard/handle/pool-handle release in any order, deref/upgrade of guards; against a plain-variable model with exact strong and weak counts (a guard owns a count or borrows through a slot - read off the slots), occupied slots == borrowing guards after every step, destruction exactly once and exactly when the last strong owner/guard goes, Weak upgrades iff alive. Non-trivial: an allocation was in containers of both classes, a guard was alive across a write that removed its allocation from a container, or a Weak guard outlived its target."),
-        "C02" => e2("C02mix", 30_000, 1_000_000, "programs (1-39 ops) over a pool of 3 allocations + fresh ones and 1-4 containers of mixed pointer kinds (ArcSwapAny<Strong>, ArcSwapAny<Option<Strong>>, ArcSwapAny<Weak>; Strong/Weak = Arc/sync::Weak or Rc/rc::Weak; default or fallback-only strategy) in which the same allocation sits in containers of both classes while guards of both classes are alive: load, load_full, store, swap, compare_and_swap, up to 11 guards at once, guard/handle/pool-handle release in any order, deref/upgrade of guards; against a plain-variable model with exact strong and weak counts (a guard owns a count or borrows through a slot - read off the slots), occupied slots == borrowing guards after every step, destruction exactly once and exactly when the last strong owner/guard goes, Weak upgrades iff alive. Non-trivial: an allocation was in containers of both classes, a guard was alive across a write that removed its allocation from a container, or a Weak guard outlived its target."),
-        "C12" => e2("C12mix", 40_000, 1_500_000, "programs (1-39 ops) over a pool of 3 allocations + fresh ones and 1-4 containers of mixed pointer kinds (ArcSwapAny<Strong>, ArcSwapAny<Option<Strong>>, ArcSwapAny<Weak>; Strong/Weak = Arc/sync::Weak or Rc/rc::Weak; default or fallback-only strategy) in which the same allocation sits in containers of both classes while guards of both classes are alive: load, load_full, store, swap, compare_and_swap, up to 11 guards at once, guard/handle/pool-handle release in any order, deref/upgrade of guards; against a plain-variable model with exact strong and weak counts (a guard owns a count or borrows through a slot - read off the slots), occupied slots == borrowing guards after every step, destruction exactly once and exactly when the last strong owner/guard goes, Weak upgrades iff alive. Non-trivial: an allocation was in containers of both classes, a guard was alive across a write that removed its allocation from a container, or a Weak guard outlived its target."),
+        "C01" => e2("C01mix", 30_000, 1_000_000, "programs (1-39 ops) over a pool of 3 allocations + fresh ones and 1-4 containers of mixed pointer kinds (ArcSwapAny<Strong>, <Option<Strong>>, <Weak>, <Option<Weak>>; Strong/Weak = Arc/sync::Weak or Rc/rc::Weak; default or fallback-only strategy) in which the same allocation sits in containers of both classes while guards of both classes are alive: load, load_full, store, swap, rcu, compare_and_swap, storing back a handle obtained earlier (a Weak whose target is gone included), up to 11 guards at once, guard/handle/pool-handle release in any order, deref/upgrade of guards, at the end containers dropped or consumed before or after the guards; against a plain-variable model with exact strong and weak counts (whether a guard owns a count or borrows through a slot, and when that changes, is read off the slots as decoded by the crate's hook), occupied slots == borrowing guards after every step, destruction exactly once and exactly when the last strong owner/guard goes, Weak upgrades iff alive, every allocation freed at the end (counting allocator). Non-trivial: an allocation was in containers of both classes, a guard was alive across a write that removed its allocation from a container, or a Weak guard outlived its target."),
+        "C02" => e2("C02mix", 30_000, 1_000_000, "programs (1-39 ops) over a pool of 3 allocations + fresh ones and 1-4 containers of mixed pointer kinds (ArcSwapAny<Strong>, <Option<Strong>>, <Weak>, <Option<Weak>>; Strong/Weak = Arc/sync::Weak or Rc/rc::Weak; default or fallback-only strategy) in which the same allocation sits in containers of both classes while guards of both classes are alive: load, load_full, store, swap, rcu, compare_and_swap, storing back a handle obtained earlier (a Weak whose target is gone included), up to 11 guards at once, guard/handle/pool-handle release in any order, deref/upgrade of guards, at the end containers dropped or consumed before or after the guards; against a plain-variable model with exact strong and weak counts (whether a guard owns a count or borrows through a slot, and when that changes, is read off the slots as decoded by the crate's hook), occupied slots == borrowing guards after every step, destruction exactly once and exactly when the last strong owner/guard goes, Weak upgrades iff alive, every allocation freed at the end (counting allocator). Non-trivial: an allocation was in containers of both classes, a guard was alive across a write that removed its allocation from a container, or a Weak guard outlived its target."),
+        "C12" => e2("C12mix", 40_000, 1_500_000, "programs (1-39 ops) over a pool of 3 allocations + fresh ones and 1-4 containers of mixed pointer kinds (ArcSwapAny<Strong>, <Option<Strong>>, <Weak>, <Option<Weak>>; Strong/Weak = Arc/sync::Weak or Rc/rc::Weak; default or fallback-only strategy) in which the same allocation sits in containers of both classes while guards of both classes are alive: load, load_full, store, swap, rcu, compare_and_swap, storing back a handle obtained earlier (a Weak whose target is gone included), up to 11 guards at once, guard/handle/pool-handle release in any order, deref/upgrade of guards, at the end containers dropped or consumed before or after the guards; against a plain-variable model with exact strong and weak counts (whether a guard owns a count or borrows through a slot, and when that changes, is read off the slots as decoded by the crate's hook), occupied slots == borrowing guards after every step, destruction exactly once and exactly when the last strong owner/guard goes, Weak upgrades iff alive, every allocation freed at the end (counting allocator). Non-trivial: an allocation was in containers of both classes, a guard was alive across a write that removed its allocation from a container, or a Weak guard outlived its target."),
         "C16" => e2("C16seq", 30_000, 500_000, "store sequences (pool value, fresh, same again, A-B-A, None) x loads of up to 4 caches, clones and 3 mapped caches on the real Arc: Cache::load == current value, strong counts == container + caches that last returned it, superseded value released by the observing load, mapped cache == projection. Non-trivial: a cache observed a change."),
         "C17" => e2("C17seq", 30_000, 500_000, "9 projection chains (Map depth 1-4 over &, Arc, Box<dyn DynAccess>, AccessConvert, the map method, direct Access<T>) x store/load/deref/drop sequences: every deref yields value and address of the snapshot current at the guard's load, the snapshot stays alive exactly as long as a guard needs it, static and dynamic dispatch agree, Constant yields its value. Non-trivial: a store happened during the life of a guard that was dereferenced afterwards."),
         "C20" => e2("C20serde", 40_000, 1_000_000, "values of a serde data model (unit, bool, ints, char, strings, options, sequences, maps, tuples, newtypes, structs, enum variants; nested to depth 3; in a fifth of the cases a zero-sized or fixed pointee instead: (), unit struct, empty struct, [u8;0], PhantomData, tuple struct of (), u64, (u8,())) for ArcSwap<V> and ArcSwapOption<V> (None included) under the three default-constructible strategies: identical token stream through a recording Serializer, identical JSON, deserialization (from text and from serde_json::Value) equals deserializing the pointer with strong count 1, round trip, and Deserialize::deserialize_in_place into a container on which a guard is held (guard keeps its value, counts exact). Non-trivial: value nested, None, zero-sized pointee, or containing a string/sequence."),
